@@ -140,6 +140,19 @@ REG["C16"] = dict(
     outside=["Read[T]/GenericReader.Read into Go values (reflection)", "values decoded from pooled page buffers surviving page release (DESIGN K1: needs the page decode path, not built)", "cross-goroutine pool reuse"],
 )
 
+REG["C02"] = dict(
+    harnesses=[H(P, "VerifH_C02_pageAccounting", max_seconds=600), H(E + "thrift", "VerifH_C02_compactIntegers"), H(E + "thrift", "VerifH_C02_compactHeaders"), H(P, "VerifH_C02_reencodeRowBoundaries")],
+    explanation="Kernel-wise; the independent decoder is realised as reference functions written in the harness from the format specifications. (K1) ColumnWriter.recordPageStats on a dictionary page and up to three data pages with symbolic header sizes, body sizes and row/value/null counts: every page location's offset is the sum of the sizes of everything stored before it in the chunk, first_row_index is the sum of earlier rows, compressed_page_size is header+body, and the chunk totals and encoding statistics are the sums. (K4) Thrift compact protocol primitives, through which every header and the footer pass: zig-zag varints for i16/i32/i64, field headers (delta short form and long form), list headers (short and long form), binary values and the stop field are decoded from the written bytes by a decoder written from the thrift-compact spec and by the library's reader, for all values. (K5) encodings against spec decoders: see C04. (K6) the re-encode path hands only whole rows to the column writer, so pages begin on row boundaries (rows around the 1024-value batch of copyColumnValues).",
+    bounds={"quick": "K1: optional dictionary page + 1..3 data pages, header sizes <256, body sizes <65536, rows/nulls <256; K4: all int16/int32/int64 values, field ids >=1, list sizes >=0, binary 0..3 bytes; K6: first row of 1016..1026 values, second 1..4, third 0..2", "thorough": "same"},
+    outside=["footer and page-header struct serialisation (reflection-driven Thrift encoder)", "absolute file offsets in writeRowGroup and the verbatim-copy splice (K2), checksum ordering in writeDataPage (K3)", "whole-file parse by an independent reader", "bloom filter header, sorting metadata, key-value metadata"],
+)
+REG["C11"] = dict(
+    harnesses=[H(P, "VerifH_C11_copyEligibility"), H(P, "VerifH_C02_reencodeRowBoundaries")],
+    explanation="(K1) columnChunkIsCopyable / encodingStatsMatch on symbolic source metadata (physical type, codec, up to two encoding-stat entries of any page type and encoding, page-index offsets, encryption) against every destination configuration in the bound (3 types x 3 codecs x 3 encodings x dictionary x page version x encryption): the fast path declares a chunk copyable exactly when a reference predicate written from the property's list holds (same physical type, codec, data page version and value encoding on every data page, dictionary presence, no encryption on either side, page index present). (K6) the re-encode path only hands whole rows to the destination column writer (shared with C02).",
+    bounds={"quick": "K1: <=2 encoding-stat entries, no bloom filter requested on the destination; K6 as in C02", "thorough": "same"},
+    outside=["byte-level equality of the produced files (needs the whole writer)", "wrappers (dedup, converted, merged row groups) declining the fast path (K2), segment packing (K4), bloom filter sizing/copy on the fast paths (K5)", "bloomFilterIsCopyable (needs the bloom header decode)"],
+)
+
 LEVEL_TEXT = "bounded symbolic execution of the real functions (go/ssa of the current /repo tree) with an SMT solver deciding every assertion for all inputs inside the stated bounds; counterexamples are replayed against the natively compiled code before being reported"
 
 def main():
